@@ -366,6 +366,9 @@ def check(ctx: Any, sc: dict[str, Any], out: dict[str, Any]) -> None:
                             it["used"] = True
                             break
                 continue
+            if nxt is None and res[0] == "exc" and res[2] and any(not it["used"] and it["l"] in ("E", "T") and abs(it["t"] - limit) <= TOL for it in items):
+                closed_at = te  # a control word arrived within the tolerance of the read deadline: it may or may not have been seen
+                continue
             if nxt is None:
                 # nothing deliverable in time (frames arriving within TOL of the deadline may go either way)
                 near = [it for it in items if not it["used"] and it["l"] == "D" and abs(it["t"] - limit) <= TOL]
